@@ -22,6 +22,8 @@ def meta_demo_dir(d):
             for line in open(os.path.join(d, f)):
                 if line.startswith("package "):
                     pk = line.split()[1]
+                    if pk.endswith("_test") and os.path.isdir(os.path.join("/repo/contracts", pk[:-5])):
+                        return "contracts/" + pk[:-5]   # e.g. package neofsid_test -> contracts/neofsid
                     return {"tests": "tests", "deploy": "deploy"}.get(pk, "tests")
     return "tests"
 
